@@ -2,7 +2,7 @@
    Only statements; proofs are [exact <lemma>] from Smtp/CodecProofs.v.
    sblast is the model of qmail-smtpd.c blast() (Smtp/Codec.v), tied to the C function by
    checks/C05.py on every run. *)
-From NQ Require Import Smtp.Codec Smtp.CodecProofs.
+From NQ Require Import Smtp.Codec Smtp.CodecProofs Smtp.CodecEqProofs.
 Local Open Scope N_scope.
 
 (* The decoder ends the message only at CR LF . CR LF: if it returns, the consumed prefix p
@@ -15,6 +15,18 @@ Theorem dec_frames_only_at_crlf_dot_crlf : forall s b r,
             /\ no_bare_lf 10 p = true.
 Proof. exact sblast_framing. Qed.
 Print Assumptions dec_frames_only_at_crlf_dot_crlf.
+
+(* the decoder IS the RFC 5321 4.5.2 receiver: on every byte stream it returns what the independently
+   written line-oriented reference returns - same body, same rest, same stray-newline verdict *)
+Theorem dec_equals_rfc_reference : forall s b r, sblast s = Done b r <-> rfc_decode s = Done b r.
+Proof. exact sblast_Done_iff. Qed.
+Print Assumptions dec_equals_rfc_reference.
+Theorem dec_stray_equals_rfc_reference : forall s, sblast s = Stray <-> rfc_decode s = Stray.
+Proof. exact sblast_Stray_iff. Qed.
+Print Assumptions dec_stray_equals_rfc_reference.
+Theorem dec_equals_rfc_reference_all : forall s, sres_eqb (sblast s) (rfc_decode s) = true.
+Proof. exact sblast_is_rfc_decode_l. Qed.
+Print Assumptions dec_equals_rfc_reference_all.
 
 (* conversely: input that runs out contained no terminator (nothing is ever skipped) *)
 Theorem dec_needmore_has_no_terminator : forall s b,
